@@ -84,7 +84,7 @@ def run(chk, binary):
                 chk.known("duplicate-name", recs)
             if dec != exp or [list(d.keys()) for d in dec] != [sorted(d.keys()) for d in exp]:
                 chk.violation("spec:--json does not carry the records", {"recs": recs, "decoded": dec})
-        if k == 2 and not (len(recs) == 1 and len(recs[0]) == 1 and recs[0][0][0] == "0"):
+        if k == 2 and not (recs and all(len(r) == 1 and r[0][0] == "0" for r in recs)):
             exp = ""
             for r in recs:
                 line = arg.join(v for _, v in r)
